@@ -10,6 +10,7 @@ from concurrent.futures import ThreadPoolExecutor
 
 import lib
 import pygen
+import c06proj
 import cfgcommon as cc
 
 CLASS_FILE = '''class Account:
@@ -409,6 +410,169 @@ def main(tier):
                                     + [x for x in (got.get(sec) or []) if x not in role_base[role][sec]][:3]),
                                  dict(rep, section=sec, expected=role_base[role][sec][:20], got=(got.get(sec) or [])[:20]), independent=True)
                     break
+    # ----- project-level isolation: the figures of the SUMMARY that describe the valid files (health score, grade, every category
+    # score, the complexity / dead code / clone / CBO / LCOM counters, analyzed_files, total_files) and the verdict of `pyscn check`
+    # are those of the project without the broken files.  Project sizes (valid + broken) on and around the project-size normalisation
+    # of the health score (> 10 files) and at 20 / 101 files; 1, 2 and many broken files (syntax errors, binary, wrong encodings,
+    # truncated, a dangling symbolic link); dead code, a complex function, a clone family, coupled and scattered classes in the valid
+    # files dosed below every penalty cap (a figure on its cap hides a dilution).  Run against run: no model involved.
+    t_proj = time.time()
+    stats.update(project_runs=0, project_fields_compared=0, project_check_runs=0, project_sizes=[], project_scores_off_cap={})
+    full_args = ["analyze", "--json", "--no-open", "."]
+    fast_sel = "complexity,deadcode"
+    fast_args = ["analyze", "--json", "--no-open", "--select", fast_sel, "."]
+    check_args = ["check", "."]
+    sizes = (9, 10, 11, 12, 20, 101)
+    pool = []
+    for pi_, (label, content) in enumerate(c06proj.broken_pool(rng)):
+        # "broken" = the analyser itself cannot analyse it: alone in a directory it yields no analysed file (the tolerant parser accepts
+        # some texts CPython rejects: those are valid files for this clause)
+        pd = os.path.join(root, "probe_%02d" % pi_)
+        os.makedirs(pd)
+        with open(os.path.join(pd, "probe.py"), "wb") as f:
+            f.write(content)
+        r = run_cli(fast_args, pd)
+        ps_ = (latest_json(pd) or {}).get("summary") or {}
+        check_run("broken content %s alone" % label, r[0], r[1], r[2], r[3], len(content), {"kind": "project-probe", "label": label, "content_hex": content[:300].hex()})
+        if ps_.get("analyzed_files", 0) == 0 and ps_.get("total_functions", 0) == 0:
+            pool.append((label, content))
+        else:
+            stats.setdefault("project_contents_accepted_by_parser", []).append(label)
+    stats["project_broken_kinds"] = [l for l, _ in pool]
+    if len(pool) < 4:
+        ck.broken_ties.append("project-level isolation: only %d of the broken contents are rejected by the analyser" % len(pool))
+        pool = pool or [("unclosed_paren", b"def f(:\n")]
+    plan = []                                   # (total, n_broken, dose, args, with_check)
+    for total in sizes:
+        for nb_label, nb in (("1", 1), ("2", 2), ("many", max(3, total // 2))):
+            doses = sorted(set([4, 10, 18, 20] + ([rng.randint(1, 19)] if not thorough else list(range(1, 40, 3)))))
+            full_dose = rng.choice([d for d in doses if d < 20])
+            plan.append((total, nb, full_dose, full_args, True))
+            for d in doses:
+                if d != full_dose or thorough:
+                    plan.append((total, nb, d, fast_args, False))
+
+    def strip_lines(text, names):
+        """Messages of `pyscn check` without the lines that name a broken file and without durations."""
+        out = []
+        for line in text.splitlines():
+            if any(n in line for n in names):
+                continue
+            out.append(re.sub(r"\d+(\.\d+)?\s*(ms|µs|us|s)\b", "<t>", line.rstrip()))
+        return out
+
+    def project_one(item):
+        pi, (total, nb, dose, args, with_check) = item
+        prng = random.Random(rng_seed * 1000 + pi)
+        n_valid = total - nb
+        valid = c06proj.valid_files(n_valid, dose, prng)
+        n_link = 1 if nb >= 2 else 0
+        offs = prng.randrange(len(pool))
+        broken = {}
+        for i in range(nb - n_link):
+            label, content = pool[(offs + i) % len(pool)]
+            # names that sort before, between and after the valid files
+            broken["%s_bad_%02d_%s.py" % (("aa", "v00m", "zz")[i % 3], i, label)] = content
+        dw = c06proj.write_project(os.path.join(root, "proj_%03d_with" % pi), valid, broken, n_link)
+        do = c06proj.write_project(os.path.join(root, "proj_%03d_without" % pi), valid, {})
+        rw = run_cli(args, dw)
+        jw = latest_json(dw)
+        ro = run_cli(args, do)
+        jo = latest_json(do)
+        cw = co = None
+        if with_check:
+            cw = run_cli(check_args, dw, timeout=60)
+            co = run_cli(check_args, do, timeout=60)
+        for d in (dw, do):
+            shutil.rmtree(d, ignore_errors=True)
+        return (total, nb, dose, args, sorted(broken) + ["zz_unreadable_%d.py" % i for i in range(n_link)], valid, broken, rw, jw, ro, jo, cw, co)
+
+    rng_seed = rng.randrange(1 << 30)
+    with ThreadPoolExecutor(max_workers=8) as ex:
+        proj_results = list(ex.map(project_one, enumerate(plan)))
+    for (total, nb, dose, args, bnames, valid, broken, rw, jw, ro, jo, cw, co) in proj_results:
+        stats["project_runs"] += 2
+        if (total, nb) not in stats["project_sizes"]:
+            stats["project_sizes"].append((total, nb))
+        full = "--select" not in args
+        rep = {"kind": "project-summary", "total_files": total, "broken_files": nb, "valid_files": total - nb, "dead_code_functions": dose,
+               "args": args, "broken": {n: broken[n][:200].hex() for n in sorted(broken)}, "dangling_symlinks": [n for n in bnames if n not in broken],
+               "generator": "c06proj.valid_files(%d, %d, rng)" % (total - nb, dose), "valid_head": {n: valid[n][:300] for n in sorted(valid)[:2]}}
+        ok_w = check_run("project of %d files, %d of them broken" % (total, nb), rw[0], rw[1], rw[2], rw[3], 200000, rep)
+        ok_o = check_run("project of %d valid files" % (total - nb), ro[0], ro[1], ro[2], ro[3], 200000, rep)
+        if not (ok_w and ok_o):
+            continue
+        sw, so = (jw or {}).get("summary"), (jo or {}).get("summary")
+        if not sw or not so:
+            ck.violation("no summary in the report of a project of %d files, %d of them broken (with: %s, without: %s)" % (total, nb, bool(sw), bool(so)),
+                         dict(rep, stderr=rw[2][-800:]), independent=True)
+            continue
+        fields = c06proj.SUMMARY_FIELDS + c06proj.SIZE_FIELDS + (c06proj.DEPS_FIELDS if full else [])
+        diff = []
+        for f_ in fields:
+            stats["project_fields_compared"] += 1
+            if f_ not in so or f_ not in sw:
+                ck.broken_ties.append("summary field %s is missing from the report" % f_)
+                continue
+            a, b = sw[f_], so[f_]
+            if (abs(a - b) > 1e-9) if isinstance(a, float) or isinstance(b, float) else a != b:
+                diff.append((f_, b, a))
+        for f_ in ("complexity_score", "dead_code_score", "duplication_score", "coupling_score", "cohesion_score"):
+            if 0 < so.get(f_, 0) < 100 and (full or f_ in ("complexity_score", "dead_code_score")):
+                stats["project_scores_off_cap"][f_] = stats["project_scores_off_cap"].get(f_, 0) + 1
+        if so.get("analyzed_files") != total - nb:
+            ck.broken_ties.append("generator: %d valid files written, analyzed_files %s" % (total - nb, so.get("analyzed_files")))
+        if diff:
+            ck.violation("%d broken file(s) in a project of %d files change the summary of the %d valid files (%d functions with dead code; %s): %s"
+                         % (nb, total, total - nb, dose, " ".join(args[:-1]), ", ".join("%s %s -> %s" % d for d in diff[:8])),
+                         dict(rep, differences=[{"field": f_, "without_broken": b, "with_broken": a} for f_, b, a in diff],
+                              summary_with=sw, summary_without=so), independent=True)
+        if cw is not None:
+            stats["project_check_runs"] += 2
+            okc = check_run("`pyscn check` on a project of %d files, %d of them broken" % (total, nb), cw[0], cw[1], cw[2], cw[3], 200000, rep)
+            okc = check_run("`pyscn check` on a project of %d valid files" % (total - nb), co[0], co[1], co[2], co[3], 200000, rep) and okc
+            if okc:
+                lw, lo = strip_lines(cw[1] + "\n" + cw[2], bnames), strip_lines(co[1] + "\n" + co[2], bnames)
+                if cw[0] != co[0] or sorted(lw) != sorted(lo):
+                    ck.violation("`pyscn check` on a project of %d files, %d of them broken: exit %s (without the broken files: %s), messages about the valid files differ: %s"
+                                 % (total, nb, cw[0], co[0], ([x for x in lo if x not in lw][:3], [x for x in lw if x not in lo][:3])),
+                                 dict(rep, exit_with=cw[0], exit_without=co[0], messages_with=lw[:40], messages_without=lo[:40]), independent=True)
+                if not any(n in cw[1] + cw[2] for n in broken):
+                    ck.violation("`pyscn check` does not report any of the %d unparsable files of the project" % nb, dict(rep, stderr=cw[2][-800:]), independent=True)
+    # ----- the same for the module graph: two valid modules that import each other and a third one; k broken files next to them.
+    # The broken files are counted as modules of the project (deps_total_modules, not compared: it describes them), which dilutes
+    # the share of modules in cycles and moves the main sequence deviation of the valid modules: finding F83
+    stats["project_deps_runs"] = 0
+    cyc = {"alpha.py": "import beta\n\n\ndef fa():\n    return beta.fb()\n", "beta.py": "import alpha\n\n\ndef fb():\n    return alpha.fa()\n",
+           "gamma.py": "def fc():\n    return 1\n"}
+    deps_args = ["analyze", "--json", "--no-open", "--select", "deps", "."]
+    d0 = c06proj.write_project(os.path.join(root, "projdeps_without"), cyc, {})
+    r0 = run_cli(deps_args, d0)
+    s0 = (latest_json(d0) or {}).get("summary") or {}
+    check_run("module graph project, valid files only", r0[0], r0[1], r0[2], r0[3], 2000, {"kind": "project-deps", "files": cyc})
+    for k in (1, 2, 7):
+        broken = {"zz_bad_%d.py" % i: pool[i % len(pool)][1] for i in range(k)}
+        dk = c06proj.write_project(os.path.join(root, "projdeps_with_%d" % k), cyc, broken)
+        rk = run_cli(deps_args, dk)
+        sk = (latest_json(dk) or {}).get("summary") or {}
+        stats["project_deps_runs"] += 1
+        rep = {"kind": "project-deps", "files": cyc, "broken": {n: c[:200].hex() for n, c in broken.items()}, "args": deps_args}
+        if not check_run("module graph project with %d broken files" % k, rk[0], rk[1], rk[2], rk[3], 4000, rep) or not s0 or not sk:
+            continue
+        diff = [(f_, s0.get(f_), sk.get(f_)) for f_ in ("deps_modules_in_cycles", "deps_max_depth", "deps_main_sequence_deviation", "dependency_score",
+                                                        "architecture_score", "health_score", "grade", "total_files", "analyzed_files") if s0.get(f_) != sk.get(f_)]
+        if not diff:
+            continue
+        diluted = all(f_ in ("deps_main_sequence_deviation", "dependency_score", "health_score", "grade") for f_, _, _ in diff) \
+            and sk.get("deps_total_modules") == s0.get("deps_total_modules", 0) + k
+        kf = ck.match_known({"class": "broken-file-counted-as-module"}) if diluted else None
+        if kf is not None:
+            ck.known_finding(kf)
+            stats.setdefault("project_deps_dilution", {})[str(k)] = ["%s %s -> %s" % d for d in diff]
+        else:
+            ck.violation("%d broken file(s) next to 3 valid modules (two of them import each other) change the dependency figures of the valid modules: %s"
+                         % (k, ", ".join("%s %s -> %s" % d for d in diff)), dict(rep, summary_with=sk, summary_without=s0), independent=True)
+    stats["project_stage_seconds"] = round(time.time() - t_proj, 1)
     # ----- valid Python in unusual surface form: continuations after every keyword/operator kind, newlines and comments inside
     # brackets (same AST under CPython): no crash, and the per-function results are those of the plain file
     stats["surface_runs"] = 0
@@ -678,7 +842,13 @@ def main(tier):
         "rule": "malformed stream (syntax errors, truncations, bit flips, binary, encodings, BOM, CR/CRLF, very long line, deep parentheses) each "
                 "analysed alone and mixed into a project of 5 good files (all analyses), report sections of the good files compared with the "
                 "baseline; malformed content in every role of a package project (package __init__ with re-exports, imported module, sub-package "
-                "__init__, leaf, importer) compared with the project without that file; valid sources rewritten with a continuation after every keyword/operator kind and "
+                "__init__, leaf, importer) compared with the project without that file; PROJECT LEVEL (run against run): projects of 9, 10, 11, 12, 20 and 101 files "
+                "(valid + broken: on and around the > 10 files project-size normalisation of the dead code penalty) with 1, 2 and many broken files (syntax errors, binary, "
+                "UTF-16, invalid UTF-8, truncated, NUL garbage, a dangling symbolic link; only contents the analyser itself cannot analyse alone), valid files with "
+                "4/10/18/20/random functions with dead code, a complex function, a clone family in >= 4400 lines, coupled and scattered classes so that no category score sits on its cap: "
+                "every summary field describing the valid files (health_score, grade, the five category scores, dependency/architecture score, counters of all analyses, "
+                "analyzed_files, total_files) and the exit status and messages of `pyscn check` (lines naming a broken file removed) equal those of the project without the broken files; "
+                "3 valid modules with an import cycle plus 1/2/7 broken files, dependency figures (finding F83); valid sources rewritten with a continuation after every keyword/operator kind and "
                 "newlines/comments inside brackets (same AST under CPython) must not crash and must give the per-function results of the plain file; 4 output formats; nesting depth 40..320 of if/for/try; breadth: 30..120 sequential compound statements of eight shapes (loop then if/else "
                 "returns, if/else in a loop, try/except, elif chain, match cases, loops with else, with blocks); calculateMaxDepth vs its Coq model (value) on random digraphs, random DAGs and import cycles combined with dense DAGs, "
                 "modules in shuffled order; calculateMaxDepth time on complete DAGs of 12..200 modules, layered DAGs, rows of diamonds and random DAGs against "
